@@ -24,7 +24,12 @@ NearMisses == { A, B, C, D,
     "https://foo.exampl", "https://foo.example.", "ttps://foo.example", "foo.example", "foo", "e", "https://",
     "HTTPS://FOO.EXAMPLE", "https://foo.example.evil.com", "https://evil.com/https://foo.example",
     "https://foo.example,https://bar.example", "example,https://bar", ",", "",
-    "http://a.test:808", "http://a.test", "a.test:8080", "https://unrelated.org", "null", "https://x.y.z/" }
+    "http://a.test:808", "http://a.test", "a.test:8080", "https://unrelated.org", "null", "https://x.y.z/",
+    \* spellings a normalising comparison would wrongly equate with a configured origin
+    "https://foo.example:443", "http://foo.example", "https://FOO.example", "https://foo.example//", "https://foo.example/path",
+    "https://foo.example?x", "https://foo.example#f", "https://user@foo.example", "http://a.test:08080",
+    "http://a.test:8080/", "https://foo.example\thttps://bar.example", "https://foo.example https://bar.example",
+    "https://bar.example,https://foo.example", "*", "https://*.example" }
 
 Configs ==
     { [all |-> al, origins |-> os, creds |-> cr, methods |-> ms, headers |-> hs, expose |-> "content-type", maxage |-> ma]
